@@ -395,6 +395,15 @@ def battery(pool, mpool):
                 roots, _ = RB.decode(default_boc)
                 if roots[0].hash() != rc.hash():
                     probs.append(f'cell #{idx}: to_boc() encodes another cell')
+                # every keyword of to_boc is part of the request: the 2-bit `flags` value goes into the header byte and
+                # nothing else changes; a plain call afterwards is unaffected (no per-object state between calls)
+                for fl in (1, 2, 3):
+                    fb = o.to_boc(flags=fl)
+                    h.update(fb)
+                    if fb[:4] + fb[5:] != default_boc[:4] + default_boc[5:] or fb[4] != default_boc[4] | (fl << 3):
+                        probs.append(f'cell #{idx}: to_boc(flags={fl}) does not differ from to_boc() exactly by the flags bits (result depends on earlier calls?)')
+                if o.to_boc() != default_boc:
+                    probs.append(f'cell #{idx}: to_boc() after to_boc(flags=..) differs from the call before')
             except RB.BocFormatError as e:
                 probs.append(f'cell #{idx}: to_boc() malformed: {e}')
             for mode in ('arg', 'noarg'):
